@@ -6,7 +6,7 @@ ROOT = os.path.dirname(os.path.dirname(os.path.abspath(__file__)))
 # id -> (level category, technique, level text, level note, design ref)
 CHECKS = {
  "C01": ("exploration", "model-based stateful PBT (proptest histories + exhaustive length<=3 block) against a reference model of GraphSpecs semantics",
-         "Every add_* call of every generated history is compared with a 20-line reference model written from the property text: outcome kind, ordered node list, attributes, edge multiset, and an unchanged full fingerprint after a rejected call. All 96 specs x all histories of length <= 3 over a 6-op alphabet are enumerated; longer histories are sampled. Exploration, not proof.",
+         "Every add_* call of every generated history is compared with a small reference model written from the property text: outcome kind, ordered node list, attributes, edge multiset, and an unchanged full fingerprint after a rejected call. All 96 specs x all histories of length <= 3 over a 6-op alphabet are enumerated; longer histories are sampled. Exploration, not proof.",
          "trusts the reference model (harness/src/model.rs); T=String, A=i32 only", "DESIGN.md §4 C01"),
  "C02": ("exploration", "model-based PBT: one coherence oracle cross-checks every read API (and, via the hook, the private indexes) against the model after each step",
          "After every (second) step of a generated history all read APIs are queried for every ordered pair / node / subset of a 7-name universe incl. an absent name and compared with the model's node list and edge multiset; the name-keyed and position-keyed stores are compared list by list through the snapshot hook.",
@@ -14,6 +14,57 @@ CHECKS = {
  "C03": ("exploration", "model-based PBT over uniformly (un)weighted histories; white-box invariant on the traversal lists plus differential check of weighted algorithms against oracles on get_all_edges()",
          "After every step the traversal lists (hook) must hold exactly the stored neighbours with the bit-exact minimum stored weight; weighted Dijkstra/betweenness/closeness on the final graph must equal oracles computed from get_all_edges() alone.",
          "trusts the snapshot hook and the oracle library; histories are uniformly weighted or unweighted as the property states", "DESIGN.md §4 C03"),
+ "C04": ("exploration", "PBT over generated graphs of all 8 kinds with a brute-force / Floyd-Warshall / path-count oracle; exhaustive block over all graphs on <= 3 nodes",
+         "Reported keys, distances, path validity, completeness and uniqueness of the shortest-path set (positive dyadic weights) and first_only are compared with an oracle that enumerates simple paths (n <= 10) or counts paths on the shortest-path DAG (n > 20, parallel path).",
+         "trusts harness/src/oracle.rs; completeness only asserted for strictly positive exactly-summable weights", "DESIGN.md §4 C04"),
+ "C05": ("exploration", "PBT with a definition-level oracle (explicit shortest-path enumeration / sigma products) for betweenness, all rescaling combinations",
+         "betweenness_centrality is compared (1e-9) with the sum over ordered pairs of the fraction of shortest paths through v, for weighted/unweighted x normalized/raw on graphs of all kinds incl. n <= 2 and n > 20.",
+         "trusts the oracle; paths are node sequences", "DESIGN.md §4 C05"),
+ "C06": ("exploration", "PBT with a Floyd-Warshall oracle for closeness (incoming distances, WF scaling)",
+         "closeness_centrality is compared (1e-12) with the statement's formula evaluated on an independent distance matrix for weighted/unweighted x wf_improved on graphs of all kinds.",
+         "trusts the oracle; positive weights", "DESIGN.md §4 C06"),
+ "C07": ("exploration", "differential testing across rayon pool sizes 1..16 with perturbing load and concurrent readers; bit-exact comparison with the serial result",
+         "The five parallel functions are run inside pools of every size 1..=16, repeatedly and under contention, and must reproduce the serial (pool size 1) result bit for bit incl. path list order; concurrent read-only callers must see the same. Schedules are sampled, not enumerated.",
+         "rayon's scheduler is not controlled; an order-dependent reduction or serial/parallel divergence is caught reliably, a single-interleaving race may be missed", "DESIGN.md §4 C07"),
+ "C08": ("exploration", "metamorphic PBT: relations R1-R7 between entry points and option combinations, no external oracle",
+         "all_pairs = multi_source = single_source; target, cutoff, with_paths, first_only restrict but never change the unrestricted answer; symmetry and triangle inequality; get_all_shortest_paths_involving against an interior filter on the all-pairs answer.",
+         "the unrestricted all-paths answer is the reference (its own correctness is C04)", "DESIGN.md §4 C08"),
+ "C09": ("exploration", "model-based PBT over histories and constructed graphs: counting oracle on the edge multiset, handshake identities, entry-wise adjacency matrix",
+         "Counts, degrees (self-loop = 2), weighted variants, per-node vs all-nodes maps, handshake identities on the API's own outputs, degree centrality, density and every entry of the sparse adjacency matrix are compared with counts over the model's edge list.",
+         "trusts the model; weighted aggregates asserted only when every edge is weighted (dyadic)", "DESIGN.md §4 C09"),
+ "C10": ("exploration", "PBT with a transitive-closure oracle; results compared as sets of sets, each call repeated 3x for hash-order dependence",
+         "connected / weak / strong components, node_connected_component, breadth_first_search and bfs_equal_size_partitions are checked against reachability classes of the edge list on graphs stressed towards nested SCCs, long cycles and many small components.",
+         "trusts the closure oracle; 'bounded size' read as floor(n/k)+1", "DESIGN.md §4 C10"),
+ "C11": ("exploration", "PBT with dense-matrix definition oracles (triangles, Fagiolo, Onnela, Lind squares); subset-consistency and refusal clauses",
+         "clustering (4 variants), average_clustering, triangles, transitivity, generalized_degree and square_clustering are compared with matrix definitions on the loop-free graph, for None and generated subsets; multi-edge / directed refusals must be WrongMethod.",
+         "trusts the oracles; weighted values asserted only when the largest weight is unambiguous", "DESIGN.md §4 C11"),
+ "C12": ("exploration", "PBT over partition families built by mutation of a true partition; set-algebra and formula oracles",
+         "is_partition must equal the set-algebra predicate on families with overlaps, omissions, both at once, foreign names and duplicated blocks; modularity must equal the statement's formula (1e-9) or be NotAPartition.",
+         "trusts the formula transcription in harness/src/props/c12.rs", "DESIGN.md §4 C12"),
+ "C13": ("exploration", "PBT with a step-budget hook turning non-termination into a shrinkable failure; validity predicates over the returned levels",
+         "louvain_partitions must return within a step budget, every level must be a partition into non-empty sets, levels must be nested, harness-computed modularity must be non-decreasing (single-edge graphs), louvain_communities = last level.",
+         "termination is a budget (20000 loop iterations), not a proof; trusts the tick hook", "DESIGN.md §4 C13"),
+ "C14": ("exploration", "round-trip PBT over arbitrary Unicode names (no control chars) and arbitrary non-NaN f64 bit patterns",
+         "write_graphml_string -> read_graphml_string (and the file variants) must reproduce ordered names, directedness and the edge multiset with bit-identical weights.",
+         "control characters excluded as the property states", "DESIGN.md §4 C14"),
+ "C15": ("exploration", "model-based PBT: expected derived graph computed from the source model; result must pass the C02 and C03 oracles; source fingerprint unchanged",
+         "get_subgraph, reverse (twice = identity), set_all_edge_weights and to_single_edges are compared with results computed from the source's node and edge lists for all 96 specs and arbitrary subsets / weights.",
+         "trusts the model and the coherence oracle", "DESIGN.md §4 C15"),
+ "C16": ("exploration", "PBT plus exhaustive small block plus seeded statistical cells with an 8-sigma bound; structural validity of every generated graph",
+         "complete_graph for every n <= 60 and sampled larger n; fast_gnp_random_graph structure for n <= 300 and six probability classes down to 1e-307; mean edge count and pair support over hundreds of seeds per (n,p,d) cell; invalid p rejected; karate club against the Zachary list.",
+         "statistical bound has false-alarm probability < 1e-14 per cell", "DESIGN.md §4 C16"),
+ "C17": ("exploration", "repeated-execution differential testing: in-process repeats, rayon pools of 1/3/16 threads and separate worker processes must agree on canonical results",
+         "Seeded Louvain and the seeded generator must return identical canonical results across 5 repeated calls, three pool sizes and another process; non-randomised algorithms must agree up to 1e-9.",
+         "worker processes are long-lived; one recorded known finding (weighted Louvain on non-dyadic weights)", "DESIGN.md §4 C17"),
+ "C18": ("exploration", "PBT with validity predicates derived from the documented iteration (norm, sign, fixed-point residual bound) and metamorphic monotonicity in (max_iter, tolerance)",
+         "Every Ok vector must be non-negative, unit-norm and move by at most the tolerance-derived bound under one more documented step x -> normalise(x + A^T x); Err must be PowerIterationFailedConvergence; Ok must persist under larger budgets.",
+         "the residual bound is sound but loose (factor about 2 sqrt(n) ||M||)", "DESIGN.md §4 C18"),
+ "C19": ("fault_enumeration", "grammar-based generation of GraphML with a known expected graph, 24 injected fault kinds, and single-point corruptions enumerated exhaustively on 3 fixed documents and sampled elsewhere",
+         "Totality (no panic / hang) for valid, faulty and corrupted documents; valid documents must yield the C01 model of their node and edge elements with the declared directedness; required-attribute faults must yield ReadError; every Ok graph must pass the C02/C03 oracles.",
+         "the valid subset is the one described in harness/src/xmlgen.rs", "DESIGN.md §4 C19"),
+ "C20": ("exploration", "table-driven PBT: ~100 public calls x 8 kinds x degenerate shapes x argument selectors under catch_unwind, in a checked and a release build (worker process), with outcome comparison",
+         "No call may panic or hang in either profile; absent names and unsupported graph kinds must come back through Err/None; outcomes and values must agree between the overflow-checked and the release build.",
+         "weighted flags only with weighted graphs; functions without an error channel only get existing names", "DESIGN.md §4 C20"),
 }
 NOT_YET = {}
 
